@@ -301,7 +301,11 @@ func (b *builder) build(s *Spec, label string) gen.V {
 		case "string":
 			f["Default"] = gen.Any(gen.TString(), absint.HoleStr(b.atom(s, "RawStr", "default", false)))
 		case "integer", "number":
-			f["Default"] = gen.Any(gen.TFloat64(), absint.Num{A: b.atom(s, "Float", "default", true), IsFloat: true})
+			da := b.atom(s, "Float", "default", true)
+			if s.Kind == "integer" {
+				da.Facts["integral"] = "yes" // a default valid for an integer schema is an integer
+			}
+			f["Default"] = gen.Any(gen.TFloat64(), absint.Num{A: da, IsFloat: true})
 		case "boolean":
 			f["Default"] = gen.Any(gen.TBool(), true)
 		default:
@@ -320,7 +324,11 @@ func (b *builder) build(s *Spec, label string) gen.V {
 	case "strings":
 		f["Enum"] = g.Anys(gen.Any(gen.TString(), absint.HoleStr(b.atom(s, "RawStr", "enum[0]", false))), gen.Any(gen.TString(), absint.HoleStr(b.atom(s, "RawStr", "enum[1]", false))))
 	case "ints", "numbers":
-		f["Enum"] = g.Anys(gen.Any(gen.TFloat64(), absint.Num{A: b.atom(s, "Float", "enum[0]", true), IsFloat: true}), gen.Any(gen.TFloat64(), absint.Num{A: b.atom(s, "Float", "enum[1]", true), IsFloat: true}))
+		e0, e1 := b.atom(s, "Float", "enum[0]", true), b.atom(s, "Float", "enum[1]", true)
+		if s.Enum == "ints" {
+			e0.Facts["integral"], e1.Facts["integral"] = "yes", "yes"
+		}
+		f["Enum"] = g.Anys(gen.Any(gen.TFloat64(), absint.Num{A: e0, IsFloat: true}), gen.Any(gen.TFloat64(), absint.Num{A: e1, IsFloat: true}))
 	case "bools":
 		f["Enum"] = g.Anys(gen.Any(gen.TBool(), true), gen.Any(gen.TBool(), false))
 	case "mixed":
